@@ -390,6 +390,11 @@ def check_c01(pid, tier, t0, replay_key):
     st["schedule_pairs_checked"] = len(o1)
     common.check_floors(pid, st, tables)
     if tier == "thorough":
+        okc, detail = e2.clippy_crosscheck(P)
+        st["clippy_disallowed_methods_crosscheck"] = detail
+        obl.append({"rule": "N1-crosscheck", "inst": "every clock/env/thread reference the driver reports is also reported by clippy::disallowed_methods (independent implementation)", "ok": okc is not False})
+        if okc is False:
+            findings.append({"rule": "N1-crosscheck", "key": "N1x|driver-only-sites", "msg": f"the driver reports N1 sites clippy does not see: {detail['only_driver']}", "loc": "tables/clippy/clippy.toml", "detail": detail})
         st["selftest"] = run_selftest(pid)
     explanation = (
         "Decides structural clauses of repeatable builds from the current tree. (H) Hash order never becomes data: every iteration of a std HashMap/"
